@@ -43,7 +43,7 @@
 *)
 From ASModel Require Import Base State Orderings_gen Step Run Progress Hist Local Inv InvTl InvProto InvStep Sum StepCases.
 From ASModel Require Import GenDefs Gen1 Gen2 Gen EnvDefs Env4 Env AccDefs Acc1 Acc2 Acc3 Acc4 Acc5 Acc6 Acc7 Acc.
-From ASModel Require Import ProtDefs Prot1 Prot11 Prot16 Prot Typed LinDefs Lin2 Lin Safe1 Safe2 Safe7 Safe8 Safe Main GenLen.
+From ASModel Require Import ProtDefs Prot1 Prot11 Prot16 Prot Typed LinDefs Lin2 Lin Safe1 Safe2 Safe7 Safe8 Safe Main GenLen ProgWF1 ProgWF.
 
 Theorem C02_dec : forall s a,
   match heap s a with
@@ -123,6 +123,10 @@ Theorem C02_accounting_len : forall cf inits progs sched,
   RunOKLen cf inits progs sched -> Acc (run_state cf (init_state inits progs) sched).
 Proof. exact GenLen.C02_accounting_len. Qed.
 
+Theorem C02_accounting_static : forall cf inits progs sched,
+  RunStatic cf inits progs sched -> Acc (run_state cf (init_state inits progs) sched).
+Proof. exact ProgWF.C02_accounting_static. Qed.
+
 Print Assumptions C02_dec.
 Print Assumptions C02_pay_slot.
 Print Assumptions C02_pay_inc.
@@ -133,3 +137,4 @@ Print Assumptions C02_quiescent_counts.
 Print Assumptions C02_no_owner_destroyed.
 Print Assumptions C02_accounting_step.
 Print Assumptions C02_accounting_len.
+Print Assumptions C02_accounting_static.
